@@ -26,6 +26,7 @@ def gen(module):
 CHECKS = {
     "C05": gen("c05"),
     "C16": gen("c16"),
+    "C20": rust("exploration", [("bundled", "c20", [])]),
     "C19": gen("c19"),
     "C14": gen("c14"),
     "C17": gen("c17"),
